@@ -38,7 +38,7 @@ class C05(Check):
     RULE += PRELUDE_RULE
     ASSUMPTIONS = ['the order in which ONE source item is delivered to several simultaneously open windows is not constrained (the suite pins slot order, the property does not)']
     ANCHORS = ['rxsci/data/roll.py', 'rxsci/operators/multiplex.py']
-    REQUIRED_TAGS = ['top', 'group', 'roll', 'roll_eq', 'split', 'w<s', 'w=s', 'w>s', 'w%s!=0', 'n=0', 'n<w', 'ring-wrapped', 'w>256', 'numpy-typed-parameters', 'operator-object-used-in-two-pipelines', 'stride-sweep', 'consumer-runs-a-pipeline-built-with-the-same-operator-object', 'over-255-windows-open-on-one-key'] + ['history-fed-more-than-the-judged-stream'] + PRELUDE_TAGS + ['prelude:overlap']
+    REQUIRED_TAGS = ['window-slot-indices-beyond-65535', 'top', 'group', 'roll', 'roll_eq', 'split', 'w<s', 'w=s', 'w>s', 'w%s!=0', 'n=0', 'n<w', 'ring-wrapped', 'w>256', 'numpy-typed-parameters', 'operator-object-used-in-two-pipelines', 'stride-sweep', 'consumer-runs-a-pipeline-built-with-the-same-operator-object', 'over-255-windows-open-on-one-key'] + ['history-fed-more-than-the-judged-stream'] + PRELUDE_TAGS + ['prelude:overlap']
     REQUIRED_OBSERVED = ['child_lifetimes_checked', 'parent_lifetimes_checked', 'partial_windows_flushed']
 
     def generate(self, rng, tier, shard, nshards):
@@ -52,6 +52,11 @@ class C05(Check):
             for w_, s_, n_ in ((300, 1, 310), (514, 2, 530), (257, 1, 258)):
                 yield {'w': w_, 's': s_, 'parent': 'top' if n_ % 4 else 'group', 'parent_node': None if n_ % 4 else ['group_by', 'mod:1', None],
                        'items': [rng.randint(0, 40) for _ in range(n_)], 'dense': True}
+            # window state slots beyond 65535: 6 000 groups with twelve window slots each (quick) / 33 000 with three (thorough), partial windows
+            # still open when the groups complete (slot indices packed into 16 bits)
+            if shard == 0:
+                w_, g_ = (12, 6000) if tier == 'quick' else (3, 33000)       # (slot index = group index * ceil(w / s) + slot)
+                yield {'w': w_, 's': 1, 'parent': 'group', 'parent_node': ['group_by', 'mod:%d' % g_, None], 'items': list(range(2 * g_)), 'many_slots': True}
             # a sweep over the STRIDE values themselves (reciprocals, tables, special-cased sizes): stride s, window 2s or s + 11,
             # 2.2 s + 3 items
             top = 200 if tier == 'quick' else 1100
@@ -115,6 +120,8 @@ class C05(Check):
             out.tags.append('nested')
         if w % s:
             out.tags.append('w%s!=0')
+        if case.get('many_slots'):
+            out.tags.append('window-slot-indices-beyond-65535')
         if w > 256:
             out.tags.append('w>256')
         if n == 0:
